@@ -286,3 +286,46 @@ func NewSymbolTable() *SymbolTable {
 		symbols:       []*Symbol{},
 	}
 }
+
+// symbolTableState records which symbols a table holds at some point.
+type symbolTableState struct {
+	symbols  int
+	free     int
+	children int
+	names    map[string]struct{}
+	freeVars map[string]struct{}
+}
+
+func (t *SymbolTable) saveState() symbolTableState {
+	s := symbolTableState{
+		symbols:  len(t.symbols),
+		free:     len(t.free),
+		children: len(t.children),
+		names:    make(map[string]struct{}, len(t.symbolsByName)),
+		freeVars: make(map[string]struct{}, len(t.freeByName)),
+	}
+	for name := range t.symbolsByName {
+		s.names[name] = struct{}{}
+	}
+	for name := range t.freeByName {
+		s.freeVars[name] = struct{}{}
+	}
+	return s
+}
+
+// restoreState removes every symbol and child table added since saveState.
+func (t *SymbolTable) restoreState(s symbolTableState) {
+	t.symbols = t.symbols[:s.symbols]
+	t.free = t.free[:s.free]
+	t.children = t.children[:s.children]
+	for name := range t.symbolsByName {
+		if _, ok := s.names[name]; !ok {
+			delete(t.symbolsByName, name)
+		}
+	}
+	for name := range t.freeByName {
+		if _, ok := s.freeVars[name]; !ok {
+			delete(t.freeByName, name)
+		}
+	}
+}
